@@ -32,7 +32,7 @@ ASSUMPTIONS = ["don't-care: bool for int fields, +-inf and NaN literals, ctypes 
                "float read-back compared via struct round trip; strings up to the first NUL"]
 REQUIRE = {"assignments": 20000, "refusals_required": 5000, "readbacks_compared": 5000, "atomicity_checked_on_raise": 5000,
            "disable_blocks_checked": 50, "checked_while_other_thread_in_disable_block": 10,
-           "writes_through_views_bound_inside_disable_block": 100}
+           "writes_through_views_bound_inside_disable_block": 100, "disable_objects_reused": 30}
 CASE_TIMEOUT = 120
 HUGE = 10 ** 400
 
@@ -382,10 +382,48 @@ def disable_program(mon, mod, rng, shape):
             if raise_at == i:
                 raise Boom()
 
+    special = shape.get("special")
     try:
-        enter(0)
+        if special == "decorated_recursive":
+            # one disable object used as a decorator on a function that calls itself (the blocks nest, one per call)
+            @disable_message_validation(ignore=levels[0])
+            def rec(n):
+                try:
+                    top.f_int8 = 1000
+                except Exception:
+                    pass
+                if n:
+                    rec(n - 1)
+                elif raise_at is not None:
+                    raise Boom()
+            rec(len(levels))
+            views.update(a_int16=held.a_int16)
+        elif special == "same_object_nested":
+            # the same object entered again while it is active (whether the inner entry is refused or not)
+            nv = disable_message_validation(ignore=levels[0])
+            try:
+                with nv:
+                    with nv:
+                        if raise_at is not None:
+                            raise Boom()
+            except Boom:
+                raise
+            except Exception:
+                pass
+        elif special == "same_object_sequential":
+            nv = disable_message_validation(ignore=levels[0])
+            for _ in range(2):
+                try:
+                    with nv:
+                        pass
+                except Exception:
+                    pass
+        else:
+            enter(0)
     except Boom:
         pass
+    if special:
+        mon.bump("disable_objects_reused")
     mon.bump("disable_blocks_checked")
     helper = None
     if shape.get("other_thread"):
@@ -492,6 +530,11 @@ def gen_cases(tier, seed):
                 if raise_at in (None, 0):
                     # the same, with another thread sitting inside a disable block of its own while this thread checks
                     shapes.append({"levels": levels, "raise_at": raise_at, "other_thread": True})
+    for special in ("decorated_recursive", "same_object_nested", "same_object_sequential"):
+        for depth in (1, 2, 3):
+            for raise_at in (None, 0):
+                for other in (False, True):
+                    shapes.append({"levels": [False] * depth, "raise_at": raise_at, "special": special, **({"other_thread": True} if other else {})})
     for i in range(0, len(shapes), 8):
         cases.append({"mode": "disable", "shapes": shapes[i:i + 8], "seed": rng.getrandbits(32)})
     # the repository's own tests with the atomicity contract riding on every validator descriptor
